@@ -183,7 +183,7 @@ def run_case(kind, q):
                             ok_ = True
                             for cen_ in (ca[j_], cb[j_]):
                                 rel = (np.asarray(cen_) - pk_[j_] + c_).astype(int)
-                                ok_ &= bool(np.all(rel >= 0) and np.all(rel < 2 * c_)
+                                ok_ &= bool(np.all(rel >= 0) and np.all(rel < 2 * c_) and np.ptp(m_) > 0
                                             and m_[rel[0], rel[1]] >= m_.max() - 2e-4 * max(1.0, abs(m_.max())))
                             tied[j_] = ok_
                     for nm, ri in zip(("centers", "refineds", "peak_values", "peak_elevations"), range(4)):
